@@ -196,6 +196,11 @@ Proof.
 Qed.
 Add Field Cfield : C_field.
 
+Lemma cred_eq : forall z, ceq (cred z) z.
+Proof. intros [x y]. unfold cred, ceq. simpl. split; apply Qred_correct. Qed.
+Lemma creal_cred : forall z, creal z -> creal (cred z).
+Proof. intros [x y]. unfold creal, cred. simpl. intro H. rewrite Qred_correct. exact H. Qed.
+
 Lemma cconj_involutive : forall a, ceq (cconj (cconj a)) a.
 Proof. intros. cdestruct. split; ring. Qed.
 Lemma cconj_add : forall a b, ceq (cconj (cadd a b)) (cadd (cconj a) (cconj b)).
@@ -327,7 +332,7 @@ Proof.
   - simpl rf_inner. rewrite cnormsq_c0. simpl length. change (inject_Z (Z.of_nat 0)) with 0. lra.
   - inversion Ht as [|? ? Ht1 Ht2]; subst. destruct xs as [|x xs].
     + simpl rf_inner. rewrite cnormsq_c0. pose proof (qnat_nonneg (length (t :: ts))). nra.
-    + simpl rf_inner. simpl length. rewrite qnat_succ.
+    + simpl rf_inner. rewrite cred_eq. simpl length. rewrite qnat_succ.
       setoid_replace (inject_Z (Z.of_nat (length ts)) + 1) with (1 + inject_Z (Z.of_nat (length ts))) by ring.
       apply cnormsq_add_bound; [lra | apply qnat_nonneg | | apply IH; assumption].
       rewrite cnormsq_scale. unfold term_ok in Ht1. pose proof (Hs (t_b t * x + t_c t)) as [S1 S2].
@@ -340,7 +345,7 @@ Lemma csum_list_bound : forall (l : list C) b, 0 <= b -> Forall (fun z => cnorms
 Proof.
   intros l b Hb. induction l as [|z l IH]; intro H.
   - simpl csum_list. rewrite cnormsq_c0. simpl length. change (inject_Z (Z.of_nat 0)) with 0. lra.
-  - inversion H as [|? ? H1 H2]; subst. simpl csum_list. simpl length. rewrite qnat_succ.
+  - inversion H as [|? ? H1 H2]; subst. simpl csum_list. rewrite cred_eq. simpl length. rewrite qnat_succ.
     setoid_replace ((inject_Z (Z.of_nat (length l)) + 1) * b) with (b + inject_Z (Z.of_nat (length l)) * b) by ring.
     apply cnormsq_add_bound; [lra | | exact H1 | apply IH; exact H2].
     pose proof (qnat_nonneg (length l)). nra.
@@ -405,13 +410,13 @@ Proof. reflexivity. Qed.
 Lemma rf_inner_real : forall sinv ts xs, Forall (fun t => creal (t_a t)) ts -> creal (rf_inner sinv ts xs).
 Proof.
   intros sinv ts. induction ts as [|t ts IH]; intros xs H; [apply creal_c0|].
-  inversion H; subst. destruct xs; [apply creal_c0|]. simpl.
+  inversion H; subst. destruct xs; [apply creal_c0|]. simpl. apply creal_cred.
   apply creal_add; [apply creal_scale; assumption | apply IH; assumption].
 Qed.
 
 Lemma csum_list_real : forall l, Forall creal l -> creal (csum_list l).
 Proof.
-  induction l as [|z l IH]; intro H; [apply creal_c0|]. inversion H; subst. simpl.
+  induction l as [|z l IH]; intro H; [apply creal_c0|]. inversion H; subst. simpl. apply creal_cred.
   apply creal_add; auto.
 Qed.
 
